@@ -12,8 +12,8 @@ import synrbl.balancing as _bal
 
 PART = {}
 H = "vf.harness.C12:"
-KF_KEY = "C12-cache-key-omits-configuration"
-KF_TRUNC = "C12-truncated-entry-raises"
+# C12-cache-key-omits-configuration and C12-truncated-entry-raises were repaired in /repo ("fix:" commits): no region
+# is excluded any more; their witnesses are still replayed and would be reported as violations if they came back.
 
 ENCODES = [
     "synrbl.balancing:Balancer.rebalance",
@@ -34,7 +34,8 @@ EXPLANATION = (
     "threshold). A history of up to 3 runs is symbolic: per run the input list and batch size (index into a table), "
     "the threshold, and optionally a crash point k (the k-th write() to a cache file kills the run, leaving exactly "
     "the prefix written so far; open(..,'w') truncates first). Every run that is not itself killed must return what "
-    "the same call returns with cache=False (rows and stats) and must not raise."
+    "the same call returns with cache=False (rows and stats) and must not raise (an exception other than the simulated "
+    "kill fails the obligation)."
 )
 BOUNDS = [
     "histories of 2 runs (quick) / 3 runs (thorough) over 3 row tokens; per run one of 6 (rows, batch_size) layouts; threshold in {0,1,2} against per-token confidence in {0,1,2}; statistics requested or not per run; at most one killed run, crash point k in 0..80 write() calls (covers absent/empty/every chunk prefix/complete)",
@@ -134,6 +135,7 @@ LAYOUTS = [
     (["ra", "ra"], 1),
 ]
 CONF = {}
+CALLS = [0]
 
 
 def _pipeline(rows, stats, thr):
@@ -173,7 +175,11 @@ def _balancer(thr):
     b.cache = True
     b.cache_dir = "/cache"
     b.confidence_threshold = thr
-    b._Balancer__run_pipeline = lambda rows, stats=None: _pipeline(rows, stats, b.confidence_threshold)
+    def run(rows, stats=None):
+        CALLS[0] += 1
+        return _pipeline(rows, stats, b.confidence_threshold)
+
+    b._Balancer__run_pipeline = run
     return b
 
 
@@ -207,73 +213,36 @@ def h_history(l0: int, l1: int, l2: int, t0: int, t1: int, t2: int, ca: int, cb:
     CONF.update({"ra": fixed.get("ca", ca), "rb": fixed.get("cb", cb), "rc": fixed.get("cc", cc)})
     FS.files = {}
     FS.dirs = set()
-    key_known = kf.active(KF_KEY)
-    trunc_known = kf.active(KF_TRUNC)
     tw = PART.get("twin")
-    # reference model of the entries on disk: key -> (rows, stats, complete)
-    disk = {}
     for i in range(nruns):
         rows_tok, bs = LAYOUTS[ls[i]]
         thr = ts[i]
         b = _balancer(thr)
         data = [{"reaction": t} for t in rows_tok]
-        # expected result of this run
+        # what the same call returns without a cache
         want_rows = []
         want_stats_d = {}
-        raises_known = False
         for batch in _batches(rows_tok, bs):
-            kb = _key(batch)
             st = {}
-            rr = _pipeline([{"reaction": t} for t in batch], st, thr)
-            if kb in disk:
-                ent = disk[kb]
-                if not ent[2]:
-                    if trunc_known:
-                        raises_known = True
-                        break
-                elif key_known:
-                    rr, st = ent[0], ent[1]
-            want_rows.extend(rr)
+            want_rows.extend(_pipeline([{"reaction": t} for t in batch], st, thr))
             for kk, v in st.items():
                 want_stats_d[kk] = want_stats_d.get(kk, 0) + v
         FS.reset_counter(k if kill_run == i else -1)
+        CALLS[0] = 0
         stats = {} if want_stats[i] else None
         killed = False
-        raised = False
         try:
             got = b.rebalance(data, output_dict=True, stats=stats, batch_size=bs)
         except Killed:
             killed = True
-        except Exception:
-            raised = True
         FS.reset_counter(-1)
-        # update the reference model from what is on disk now (complete iff the entry parses as the full document)
-        for batch in _batches(rows_tok, bs):
-            kb = _key(batch)
-            if kb not in disk:
-                st = {}
-                rr = _pipeline([{"reaction": t} for t in batch], st, thr)
-                path = _entry_path(batch)
-                if path in FS.files:
-                    import json
-
-                    full = json.dumps({"stats": st, "result": rr})
-                    disk[kb] = (rr, st, FS.files[path] == full)
-            if killed:
-                pass
         if killed:
             if tw == "killed":
                 return False
             continue
-        if raised:
-            if raises_known:
-                if tw == "raised":
-                    return False
-                continue  # known: a truncated entry makes the next run raise
+        if tw == "hit" and CALLS[0] < len(_batches(rows_tok, bs)):
             return False
-        if raises_known:
-            return False  # specified deviation did not occur: the model of the known finding is out of date
-        if tw == "hit" and i > 0 and any(_key(bt) in disk for bt in _batches(rows_tok, bs)):
+        if tw == "after-kill" and i > 0 and kill_run == i - 1:
             return False
         want = [{kk: v for kk, v in r.items() if kk in b.columns} for r in want_rows]
         if got != want:
@@ -311,7 +280,7 @@ def plan(tier):
             for b in range(nl):
                 P.append(Part(H + "h_history", {"runs": 3, "fix": {"l0": a, "l1": b, "kill_run": -1}}, "history[3 runs|l0=%d,l1=%d]" % (a, b), group="history", timeout=3000, path_timeout=200))
                 P.append(Part(H + "h_history", {"runs": 3, "fix": dict(calm, l0=a, l1=b, l2=a, kill_run=1)}, "crash[run 2 of 3 killed|l0=%d,l1=%d,l2=%d]" % (a, b, a), group="crash", timeout=3000, path_timeout=200))
-    for tw, kill in (("killed", 0), ("raised", 0), ("hit", -1)):
+    for tw, kill in (("killed", 0), ("after-kill", 0), ("hit", -1)):
         P.append(Part(H + "h_history", {"runs": 2, "twin": tw, "fix": dict(calm, l0=0, l1=0, kill_run=kill)}, "history.twin[%s]" % tw, kind="twin", group="history", timeout=900))
     return P
 
